@@ -4,7 +4,10 @@
    mutex queue, through nsync_mu_lock_slow_ as the designated waker; nsync_cv_signal / broadcast and wake_waiters'
    sites on the mutex word -- including a timeout / cancellation of the wait racing with the wake-up or the transfer.
    The cv spinlock is modelled by atomic sections (see the header of the model).
-   Statements only; proofs in Proof/MuXferProof.v, MuXferProof2.v, MuXferProof3.v. *)
+   wake_waiters' release of the mutex spinlock clears MU_WAITING when it leaves the mutex queue empty (clear_on_release).
+   Statements only; proofs in Proof/MuXferProof.v, MuXferProof2.v, MuXferProof3.v.  The hand-off theorems (no lost
+   transfer at full strength, all-states form, quiescent corollaries, outcome of the wait) are in
+   Props/Properties_C04x.v. *)
 From NsyncBase Require Import CSem.
 From NsyncGen Require Import Consts Sites.
 From NsyncModel Require Import MuModel MuSpec MuXferModel.
@@ -35,8 +38,10 @@ Theorem C01x_reacquire_mode : forall progs sched t m h,
   In (m, h) (x_rets (xget (xrun (xinit progs) sched) t)) -> h = Some m.
 Proof. exact xwait_returns_mode. Qed.
 
-(* ... and the step that completes a wait (re-acquisition in progress -> XIdle) is a successful CAS of mu.c taken
-   by a thread that held nothing before it and holds the mutex in its declared mode after it. *)
+(* ... and the step that completes a wait (re-acquisition in progress -> XIdle) is a successful CAS at one of the
+   ACQUIRING sites of mu.c -- nsync_mu_lock.1 / .3 (101, 103), nsync_mu_rlock.1 / .3 (201, 203), nsync_mu_lock_slow_.2
+   (502): [is_ok_cas] pins these site ids -- taken by a thread that held nothing before it and holds the mutex in its
+   declared mode after it. *)
 Theorem C01x_reacquire_by_cas : forall progs sched t c l,
   Z.of_nat (length progs) < 2 ^ 24 - 1 ->
   let xw := xrun (xinit progs) sched in
@@ -99,11 +104,16 @@ Theorem C04x_no_lost_transfer_partial2 : forall progs sched l p,
   In p (queue (mw xw)) /\ has (word (mw xw)) MU_WAITING = true /\ forall m, word (mw xw) <> ufast_old m.
 Proof. exact no_lost_transfer_partial2. Qed.
 
-(* The full statement ("... while nobody holds the mutex": MuProof3.no_lost_handoff over the wrapper) is NOT proved:
-   it is the definition MuXferProof2.no_lost_transfer_full, recorded here so that nobody mistakes the partial theorems
-   for it.  It needs MuProof3's hand-off invariant HInv (MU_DESIG_WAKER / MU_ALL_FALSE accounting with "agents") over
-   the wrapper; a random exploration of the extracted model (30000 programs, 19328 transfers) found no counterexample. *)
-Definition C04x_no_lost_transfer_full : Prop := no_lost_transfer_full.
+(* ... and conversely, with the spinlock free, MU_WAITING is set only over a non-empty queue (wake_waiters takes the
+   bit back when it transferred nobody onto an empty queue): no later unlock is sent down the slow path for nothing. *)
+Theorem C04x_waiting_only_if_queued : forall progs sched,
+  Z.of_nat (length progs) < 2 ^ 24 - 1 ->
+  let xw := xrun (xinit progs) sched in
+  has (word (mw xw)) MU_SPINLOCK = false -> has (word (mw xw)) MU_WAITING = true -> queue (mw xw) <> [].
+Proof. exact waiting_only_if_queued. Qed.
+
+(* The full statement ("... while nobody holds the mutex": MuProof3.no_lost_handoff over the wrapper) is
+   Properties_C04x.C04x_no_lost_transfer_full. *)
 
 (* non-vacuity: a signal under a held write lock transfers the waiting writer (cv queue -> mutex queue, MU_WAITING
    set, spinlock released); the holder's unlock wakes it with MU_DESIG_WAKER set; it re-enters nsync_mu_lock_slow_ as
@@ -138,3 +148,4 @@ Print Assumptions C01x_reacquire_mode. Print Assumptions C01x_reacquire_by_cas.
 Print Assumptions C04x_transfer_sound. Print Assumptions C04x_no_lost_transfer_partial.
 Print Assumptions C01x_example_transfer. Print Assumptions C01x_example_timeout_vs_transfer.
 Print Assumptions C04x_queue_sets_waiting. Print Assumptions C04x_spinlock_exclusive. Print Assumptions C04x_no_lost_transfer_partial2.
+Print Assumptions C04x_waiting_only_if_queued.
